@@ -1,4 +1,5 @@
 import MimicProofs.Script
+import Mimic.Extracted.Handlers
 /-!
 # C09 — KILL QUERY spares the connection; KILL CONNECTION ends exactly the target
 
@@ -269,5 +270,12 @@ theorem known_finding_kill_during_final_drain :
 /-- non-vacuity of `kill_query_keeps_connection`: a healthy idle state and a benign script exist -/
 example : Healthy ({ phase := .idle } : S) ∧ (∀ op ∈ scriptOf true (.query { callSusp := true, ncols := 1, rows := [.row 1 true] }), op.benign = true) := by
   refine ⟨⟨rfl, rfl, rfl, by simp⟩, by decide⟩
+
+/-- **`Connection.kill` has the guards the machine's `kill` event assumes** (extracted on every run): no task → nothing;
+    KILL QUERY is ignored unless a command is executing and no kill is pending, and when issued by the connection's own
+    task; otherwise the kind is recorded and the task cancelled. -/
+theorem kill_guards_shape :
+    Mimic.Extracted.Handlers.coroutine.lookup "Connection.kill" = some "IF(not self._task)[RETURN]ELSE[] IF(kind == KillKind.QUERY)[IF(not self._executing or self._kill is not None)[RETURN]ELSE[] IF(asyncio.current_task() is self._task)[RETURN]ELSE[]]ELSE[] SET(_kill=kind) DO(cancel)" := by
+  decide +kernel
 
 end MimicProps.C09
